@@ -27,7 +27,6 @@ From FV Require Model.CompilerTotal.
 Import ListNotations.
 Open Scope Z_scope.
 
-Module CT := FV.Model.CompilerTotal.
 
 (** * Results *)
 Inductive vr := ROk | RErr (msg : bytes) | RPanic | RFuel.
@@ -73,15 +72,16 @@ Definition conflict_error (kind n1 n2 : bytes) : bytes :=
        n1; T " or "; n2; T " may be used."].
 
 (** * The reduced file the type questions are asked of *)
-Fixpoint ty_of (t : ptype) : CT.ty :=
+Fixpoint ty_of (t : ptype) : CompilerTotal.ty :=
   match t with
   | PType n k v _ =>
-    CT.Ty n (match k with Some x => ty_of x | None => CT.TNil end)
-            (match v with Some x => ty_of x | None => CT.TNil end)
+    CompilerTotal.Ty n (match k with Some x => ty_of x | None => CompilerTotal.TNil end)
+            (match v with Some x => ty_of x | None => CompilerTotal.TNil end)
   end.
 
-(** every type validate checks with isValidType apart from the typedef targets, in the order
-    validate meets them *)
+(** every type validate checks with isValidType apart from the typedef targets and the operation
+    types of the scopes (parseFrugal reorders the scopes after validation; they are covered
+    separately), in the order validate meets them *)
 Definition method_types (m : method) : list ptype :=
   (match m_return m with Some t => [t] | None => [] end) ++ map f_type (m_args m) ++ map f_type (m_throws m).
 Definition file_uses (f : frugal) : list ptype :=
@@ -89,25 +89,24 @@ Definition file_uses (f : frugal) : list ptype :=
   ++ flat_map (fun s => map f_type (s_fields s)) (fr_structs f)
   ++ flat_map (fun s => map f_type (s_fields s)) (fr_unions f)
   ++ flat_map (fun s => map f_type (s_fields s)) (fr_exceptions f)
-  ++ flat_map (fun s => flat_map method_types (sv_methods s)) (fr_services f)
-  ++ flat_map (fun s => map o_type (sc_ops s)) (fr_scopes f).
+  ++ flat_map (fun s => flat_map method_types (sv_methods s)) (fr_services f).
 
-Definition reduce_with (f : frugal) (rincs : list (bytes * CT.frugal)) : CT.frugal :=
-  CT.Frugal (map (fun td => (td_name td, ty_of (td_type td))) (fr_typedefs f))
+Definition reduce_with (f : frugal) (rincs : list (bytes * CompilerTotal.frugal)) : CompilerTotal.frugal :=
+  CompilerTotal.Frugal (map (fun td => (td_name td, ty_of (td_type td))) (fr_typedefs f))
             (map s_name (fr_structs f)) (map s_name (fr_unions f)) (map s_name (fr_exceptions f))
             (map en_name (fr_enums f)) (map ty_of (file_uses f)) rincs.
-Fixpoint reduce_tree (t : ftree) : CT.frugal :=
+Fixpoint reduce_tree (t : ftree) : CompilerTotal.frugal :=
   match t with
   | FTree _ f incs =>
-    reduce_with f ((fix go (l : list (bytes * ftree)) : list (bytes * CT.frugal) :=
+    reduce_with f ((fix go (l : list (bytes * ftree)) : list (bytes * CompilerTotal.frugal) :=
                       match l with [] => [] | (k, sub) :: r => (k, reduce_tree sub) :: go r end) incs)
   end.
-Definition reduce_incs (incs : list (bytes * ftree)) : list (bytes * CT.frugal) :=
+Definition reduce_incs (incs : list (bytes * ftree)) : list (bytes * CompilerTotal.frugal) :=
   map (fun p => (fst p, reduce_tree (snd p))) incs.
-Definition reduce (f : frugal) (incs : list (bytes * ftree)) : CT.frugal := reduce_with f (reduce_incs incs).
+Definition reduce (f : frugal) (incs : list (bytes * ftree)) : CompilerTotal.frugal := reduce_with f (reduce_incs incs).
 
 (** isValidType *)
-Definition valid_ty (rf : CT.frugal) (t : ptype) : bool := CT.is_valid_type rf (ty_of t).
+Definition valid_ty (rf : CompilerTotal.frugal) (t : ptype) : bool := CompilerTotal.is_valid_type rf (ty_of t).
 
 (** * validate: the name-conflict loops *)
 Definition lower_ascii (c : Z) : Z := if (65 <=? c) && (c <=? 90) then c + 32 else c.
@@ -192,7 +191,7 @@ Definition check_identifier (f : frugal) (incs : list (bytes * ftree)) (name : b
   | _ => RErr (cat [T "Invalid constant name "; name])
   end.
 
-Definition check_constant (f : frugal) (incs : list (bytes * ftree)) (rf : CT.frugal) (c : constant) : vr :=
+Definition check_constant (f : frugal) (incs : list (bytes * ftree)) (rf : CompilerTotal.frugal) (c : constant) : vr :=
   if negb (valid_ty rf (c_type c)) then RErr (cat [T "Invalid type "; type_name (c_type c)])
   else match c_value c with
        | CIdent name => check_identifier f incs name
@@ -201,27 +200,27 @@ Definition check_constant (f : frugal) (incs : list (bytes * ftree)) (rf : CT.fr
 
 (** * validateTypedefs *)
 (** the loop [for progress := true; progress;]: a pass that marks nothing ends it *)
-Fixpoint mark_loop (fuel : nat) (rf : CT.frugal) (resolved : list bytes) : option (list bytes) :=
+Fixpoint mark_loop (fuel : nat) (rf : CompilerTotal.frugal) (resolved : list bytes) : option (list bytes) :=
   match fuel with
   | O => None
   | S n =>
-    let r' := CT.mark_round rf resolved in
+    let r' := CompilerTotal.mark_round rf resolved in
     if (length r' =? length resolved)%nat then Some r' else mark_loop n rf r'
   end.
 
-Definition check_typedefs (fuel : nat) (f : frugal) (rf : CT.frugal) : vr :=
+Definition check_typedefs (fuel : nat) (f : frugal) (rf : CompilerTotal.frugal) : vr :=
   rand (rall (fun td => if valid_ty rf (td_type td) then ROk
                         else RErr (cat [T "Invalid alias "; td_name td; T ", type "; type_name (td_type td);
                                         T " doesn't exist"])) (fr_typedefs f)) (fun _ =>
   match mark_loop fuel rf [] with
   | None => RFuel
   | Some resolved =>
-    rall (fun td => if CT.mem (td_name td) resolved then ROk
+    rall (fun td => if CompilerTotal.mem (td_name td) resolved then ROk
                     else RErr (cat [T "Circular typedef "; td_name td])) (fr_typedefs f)
   end).
 
 (** * validateStructLike (ids, then names, field by field) *)
-Fixpoint check_fields (rf : CT.frugal) (sname : bytes) (fs : list field) (ids : list Z) (names : list bytes) : vr :=
+Fixpoint check_fields (rf : CompilerTotal.frugal) (sname : bytes) (fs : list field) (ids : list Z) (names : list bytes) : vr :=
   match fs with
   | [] => ROk
   | x :: t =>
@@ -233,14 +232,14 @@ Fixpoint check_fields (rf : CT.frugal) (sname : bytes) (fs : list field) (ids : 
       RErr (cat [T "Duplicate field name "; f_name x; T " in struct "; sname])
     else check_fields rf sname t (f_id x :: ids) (f_name x :: names)
   end.
-Definition check_struct (rf : CT.frugal) (s : struct) : vr := check_fields rf (s_name s) (s_fields s) [] [].
+Definition check_struct (rf : CompilerTotal.frugal) (s : struct) : vr := check_fields rf (s_name s) (s_fields s) [] [].
 
 (** * validateServices *)
 (** isException: the underlying type names an exception of this file / of the include *)
-Definition is_exception (fuel : nat) (f : frugal) (incs : list (bytes * ftree)) (rf : CT.frugal) (t : ptype)
+Definition is_exception (fuel : nat) (f : frugal) (incs : list (bytes * ftree)) (rf : CompilerTotal.frugal) (t : ptype)
   : option bool :=
-  match CT.underlying fuel rf (ty_of t) with
-  | CT.COk (CT.Ty name _ _) =>
+  match CompilerTotal.underlying fuel rf (ty_of t) with
+  | CompilerTotal.COk (CompilerTotal.Ty name _ _) =>
     let inc := include_part name in
     match (if beqb inc [] then Some f else option_map ft_frugal (inc_get incs inc)) with
     | None => Some false
@@ -251,7 +250,7 @@ Definition is_exception (fuel : nat) (f : frugal) (incs : list (bytes * ftree)) 
 
 Definition method_where (sname mname : bytes) : bytes := cat [sname; T "."; mname].
 
-Definition check_method_types (fuel : nat) (f : frugal) (incs : list (bytes * ftree)) (rf : CT.frugal)
+Definition check_method_types (fuel : nat) (f : frugal) (incs : list (bytes * ftree)) (rf : CompilerTotal.frugal)
            (sname : bytes) (m : method) : vr :=
   rand (match m_return m with
         | Some t => if valid_ty rf t then ROk
@@ -332,13 +331,13 @@ Definition check_method_rules (sname : bytes) (m : method) : vr :=
         else ROk) (fun _ =>
   rand (check_dups wh (m_args m) [] []) (fun _ => check_dups wh (m_throws m) [] [])).
 
-Definition check_service (fuel : nat) (f : frugal) (incs : list (bytes * ftree)) (rf : CT.frugal) (s : service) : vr :=
+Definition check_service (fuel : nat) (f : frugal) (incs : list (bytes * ftree)) (rf : CompilerTotal.frugal) (s : service) : vr :=
   rand (rall (check_method_types fuel f incs rf (sv_name s)) (sv_methods s)) (fun _ =>
   rand (extends_walk fuel f incs s s []) (fun _ =>
         rall (check_method_rules (sv_name s)) (sv_methods s))).
 
 (** * validateScopes *)
-Definition check_scope (rf : CT.frugal) (s : scope) : vr :=
+Definition check_scope (rf : CompilerTotal.frugal) (s : scope) : vr :=
   rall (fun o => if valid_ty rf (o_type o) then ROk
                  else RErr (cat [T "Invalid operation type "; type_name (o_type o); T " for ";
                                  method_where (sc_name s) (o_name o)])) (sc_ops s).
@@ -361,7 +360,7 @@ Definition cvalidate (fuel : nat) (f : frugal) (incs : list (bytes * ftree)) : v
 (** fuel that is always enough for [cvalidate] (Proofs): the typedefs of the file and of what
     it includes, the number of files, the services of the file *)
 Definition validate_fuel (f : frugal) (incs : list (bytes * ftree)) : nat :=
-  S (CT.weight (reduce f incs) + length (fr_services f)).
+  S (CompilerTotal.weight (reduce f incs) + length (fr_services f)).
 
 (** * parseFrugal over a file system of parse results *)
 Inductive fentry := FParsed (f : frugal) | FSyntax (msg : bytes).
@@ -374,6 +373,28 @@ Inductive pres := POk (t : ftree) | PErr (msg : bytes) | PPanic | PFuel.
 Fixpoint join_slash (l : list bytes) : bytes :=
   match l with [] => [] | [x] => x | x :: t => x ++ 47 :: join_slash t end.
 
+(** the loop over the includes of a file; [rec] parses one included file *)
+Fixpoint includes_loop (rec : path -> pres) (dir : path) (l : list include) (acc : list (bytes * ftree))
+  : pres + list (bytes * ftree) :=
+  match l with
+  | [] => inr acc
+  | i :: t =>
+    let v := i_value i in
+    if negb (has_suffix dot_thrift v || has_suffix dot_frugal v) then
+      inl (PErr (cat [T "Bad include name: "; v]))
+    else
+      match rec (clean (dir ++ split_on 47 v [])) with
+      | POk sub => includes_loop rec dir t (inc_put acc (filepath_base (firstn (length v - 7) v)) sub)
+      | PErr m => inl (PErr (cat [T "Include "; v; T ": "; m]))
+      | PPanic => inl PPanic
+      | PFuel => inl PFuel
+      end
+  end.
+
+(** getName: the base name must consist of exactly two dot-separated parts *)
+Definition file_stem (p : path) : option bytes :=
+  match split_on 46 (last p []) [] with [name; _] => Some name | _ => None end.
+
 Fixpoint cparse (fuel : nat) (fs : pfs) (p : path) (visited : list bytes) : pres :=
   match fuel with
   | O => PFuel
@@ -381,30 +402,14 @@ Fixpoint cparse (fuel : nat) (fs : pfs) (p : path) (visited : list bytes) : pres
     match pfs_get fs p with
     | None => PErr (cat [T "open "; join_slash p; T ": no such file or directory"])
     | Some e =>
-      match split_on 46 (last p []) [] with
-      | [name; _] =>
+      match file_stem p with
+      | Some name =>
         if existsb (beqb name) visited then PErr (cat [T "Circular include: "; fmt_strings (visited ++ [name])])
         else
           match e with
           | FSyntax msg => PErr msg
           | FParsed f =>
-            let dir := removelast p in
-            let fix includes (l : list include) (acc : list (bytes * ftree)) : pres + list (bytes * ftree) :=
-                match l with
-                | [] => inr acc
-                | i :: t =>
-                  let v := i_value i in
-                  if negb (has_suffix dot_thrift v || has_suffix dot_frugal v) then
-                    inl (PErr (cat [T "Bad include name: "; v]))
-                  else
-                    match cparse fuel' fs (clean (dir ++ split_on 47 v [])) (visited ++ [name]) with
-                    | POk sub => includes t (inc_put acc (filepath_base (firstn (length v - 7) v)) sub)
-                    | PErr m => inl (PErr (cat [T "Include "; v; T ": "; m]))
-                    | PPanic => inl PPanic
-                    | PFuel => inl PFuel
-                    end
-                end in
-            match includes (fr_includes f) [] with
+            match includes_loop (fun q => cparse fuel' fs q (visited ++ [name])) (removelast p) (fr_includes f) [] with
             | inl e => e
             | inr incs =>
               match cvalidate (validate_fuel f incs) f incs with
@@ -415,7 +420,7 @@ Fixpoint cparse (fuel : nat) (fs : pfs) (p : path) (visited : list bytes) : pres
               end
             end
           end
-      | _ => PErr (cat [T "Invalid file: "; join_slash p])
+      | None => PErr (cat [T "Invalid file: "; join_slash p])
       end
     end
   end.
@@ -427,7 +432,7 @@ Definition pres_res (r : pres) : res ftree :=
 (** * What the generators rely on (decidable versions; Proofs relate them to [cvalidate]) *)
 (** the code before the repairs of this property: no extends check, no exception check, no
     duplicate-name check (used by the [_refuted] witnesses) *)
-Definition check_service_pinned (f : frugal) (incs : list (bytes * ftree)) (rf : CT.frugal) (s : service) : vr :=
+Definition check_service_pinned (f : frugal) (incs : list (bytes * ftree)) (rf : CompilerTotal.frugal) (s : service) : vr :=
   rand (rall (fun m =>
           rand (match m_return m with
                 | Some t => if valid_ty rf t then ROk else RErr (T "Invalid return type")
@@ -444,7 +449,7 @@ Definition check_service_pinned (f : frugal) (incs : list (bytes * ftree)) (rf :
                   end
                 else ROk) (fun _ =>
           if has_dup_z (map f_id (m_args m)) then RErr (T "Duplicate field id") else ROk)) (sv_methods s)).
-Definition check_struct_pinned (rf : CT.frugal) (s : struct) : vr :=
+Definition check_struct_pinned (rf : CompilerTotal.frugal) (s : struct) : vr :=
   (fix go (fs : list field) (ids : list Z) : vr :=
      match fs with
      | [] => ROk
